@@ -11,7 +11,7 @@ From BiomV Require Import Base.Tree Base.ListUtil Base.Matrix Model.Table Model.
 Import ListNotations.
 Open Scope Z_scope.
 
-Definition text := str.
+Notation text := str (only parsing).
 
 Definition rbind {A B} (r : result A) (f : A -> result B) : result B :=
   match r with ROk a => f a | RErr e => RErr e end.
